@@ -93,9 +93,11 @@ def main_c19(tier):
     for part in pmap(dc.c19_field_chunk, dc.field_sweep_tasks(tier)):
         field_recs.extend(part)
     sweeps.append({"what": "every header byte of kind magic/size/flag/page%s of each small sweep "
-                           "file set to %s" % (", palette" if tier == "thorough" else "",
-                                               "every value 0..255" if tier == "thorough"
-                                               else "16 boundary values"),
+                           "file set to %s; every control byte of four line-structured full-size "
+                           "files (MGE run per line, RAT triple per line, CM3, squashed VEF) set to %s"
+                           % (", palette" if tier == "thorough" else "",
+                              "every value 0..255" if tier == "thorough" else "16 boundary values",
+                              "16 boundary values" if tier == "thorough" else "0"),
                    "runs": len(field_recs)})
     # ---- reduce
     viol = [r for r in recs if r["verdict"] == "violation"]
@@ -127,7 +129,7 @@ def main_c19(tier):
             fv1.append(r)
     for r in (sv[:dc.MAX_REPORTED] + fv1[:dc.MAX_REPORTED]):
         # sweep violations: one fault on a fixed small file is already minimal
-        case = dc.minimal_cases()[r["ci"]]
+        case = dc.sweep_case(r.get("src", "min"), r["ci"])
         if "v" in r:
             plan = [{"kind": "set", "at": r["k"], "val": r["v"]}]
         else:
